@@ -186,8 +186,10 @@ Proof.
            destruct t; unfold set_kids at 1; cbn [kids]; rewrite upd_length, abs_jobs_update;
              f_equal; f_equal; apply abs_jobs_ext; intros j _; apply Hcode.
       * apply Some_inj in Hs; subst s'; reflexivity.
-    + destruct (0 <? caught (k_unblock k)); apply Some_inj in Hs; subst s'; cbn [prog set_at at_]; f_equal;
-        unfold complete, abs; cbn [at_ kn jobs status lastbg trace]; reflexivity.
+    + assert (Hku : kids (k_unblock k) = kids k)
+        by (unfold k_unblock, deliver; destruct (pending k); [destruct (catching k)|]; reflexivity).
+      destruct (k_unblock k) as [l1 a1 b1 c1 d1]. cbn [kids] in Hku. subst l1.
+      destruct (0 <? caught (mkKern (kids k) a1 b1 c1 d1)); apply Some_inj in Hs; subst s'; reflexivity.
     + destruct (0 <? caught k); [|discriminate]. apply Some_inj in Hs; subst s'; reflexivity.
   - (* PBuiltin *)
     destruct t0 as [i|].
@@ -208,4 +210,118 @@ Proof.
     apply abs_jobs_ext. intros j _. apply (code_at_upd k i ch (reap ch) j Hn). reflexivity.
   - discriminate.
   - discriminate.
+Qed.
+
+Lemma child_step_result s i k' :
+  child_step (kn s) i = Some k' -> result (set_at s k' (at_ s)) = result s.
+Proof.
+  intros Hst. destruct (child_step_shape _ _ _ Hst) as [c [c' [Hn [_ [_ [Hcode [_ [Hk _]]]]]]]].
+  assert (Hca : forall j, code_at k' j = code_at (kn s) j).
+  { intros j. unfold code_at. rewrite Hk. rewrite (nth_error_upd _ i j _ c Hn).
+    destruct (Nat.eqb_spec i j) as [->|Hne]; [rewrite Hn; assumption | reflexivity]. }
+  assert (Hlen : length (kids k') = length (kids (kn s))) by (rewrite Hk; apply upd_length).
+  unfold result, set_at; cbn [prog]. f_equal.
+  unfold complete, abs; cbn [at_ kn jobs status lastbg trace].
+  rewrite Hlen. rewrite (abs_jobs_ext k' (kn s) (jobs s)) by (intros j _; apply Hca).
+  destruct (at_ s) as [|todo pids pf|m t c0|t0| | |]; try reflexivity.
+  - rewrite (fold_status_ext k' (kn s) pids) by (intros j _; apply Hca). reflexivity.
+  - destruct t as [p|]; destruct c0 as [more fin pf ra|t0]; try reflexivity.
+    rewrite (fold_status_ext k' (kn s) (p :: more)) by (intros j _; apply Hca). reflexivity.
+Qed.
+
+Lemma step_result s l s' : Inv s -> step s l = Some s' -> result s' = result s.
+Proof.
+  intros HI Hs. destruct l as [|i]; cbn [step] in Hs.
+  - eapply parent_step_result; eauto.
+  - destruct (child_step (kn s) i) as [k'|] eqn:E; [|discriminate].
+    apply Some_inj in Hs. subst s'. exact (child_step_result s i k' E).
+Qed.
+
+Lemma run_result ls : forall s s', Inv s -> run s ls = Some s' -> result s' = result s.
+Proof.
+  induction ls as [|l ls IH]; intros s s' HI Hr; cbn [run] in Hr.
+  - apply Some_inj in Hr. subst. reflexivity.
+  - destruct (step s l) as [s1|] eqn:E; [|discriminate].
+    rewrite (IH s1 s' (step_inv _ _ _ HI E) Hr). eapply step_result; eauto.
+Qed.
+
+(* the shell exits only when the script is exhausted *)
+Lemma exit_prog_nil ls : forall s s',
+  (at_ s = PExit -> prog s = []) -> run s ls = Some s' -> at_ s' = PExit -> prog s' = [].
+Proof.
+  induction ls as [|l ls IH]; intros s s' H0 Hr; cbn [run] in Hr.
+  - apply Some_inj in Hr. subst. assumption.
+  - destruct (step s l) as [s1|] eqn:E; [|discriminate].
+    eapply IH; [|exact Hr]. clear IH Hr.
+    destruct l as [|i]; cbn [step] in E.
+    + destruct s as [k pr a st lb jb tr]. unfold parent_step in E; cbn [kn prog at_ status lastbg jobs trace] in E.
+      destruct a as [|todo pids pf|m t c|t0| | |]; try discriminate.
+      * destruct pr as [|[w x|l pf|t|] r]; apply Some_inj in E; subst s1; cbn; try discriminate. reflexivity.
+      * destruct todo as [|[w x] todo]; [destruct pids|]; apply Some_inj in E; subst s1; cbn; discriminate.
+      * destruct m.
+        -- destruct (negb (blocked k)); [|destruct (negb (catching k))]; apply Some_inj in E; subst s1; cbn; discriminate.
+        -- destruct (kwait k t) as [[i x| |] k'].
+           ++ destruct c as [[|p more] fin pf ra|t0]; apply Some_inj in E; subst s1; cbn; try discriminate.
+              destruct ra; discriminate.
+           ++ apply Some_inj in E; subst s1; cbn; discriminate.
+           ++ destruct c; apply Some_inj in E; subst s1; cbn; discriminate.
+        -- destruct (0 <? caught (k_unblock k)); apply Some_inj in E; subst s1; cbn; discriminate.
+        -- destruct (0 <? caught k); [|discriminate]. apply Some_inj in E; subst s1; cbn; discriminate.
+      * destruct t0 as [i|]; [destruct (job_find jb i) as [[x|]|] | destruct (job_unfinished jb)];
+          apply Some_inj in E; subst s1; cbn; discriminate.
+      * destruct (kwait k TAny) as [[i x| |] k']; apply Some_inj in E; subst s1; cbn; discriminate.
+    + destruct (child_step (kn s) i); [|discriminate]. apply Some_inj in E. subst s1. cbn. assumption.
+Qed.
+
+(* status fidelity and schedule independence *)
+Lemma schedule_independent_lemma p ls s :
+  run (init p) ls = Some s -> final s = true ->
+  trace s = r_trace (ref_run p) /\ status s = r_status (ref_run p) /\
+  lastbg s = r_lastbg (ref_run p) /\ map fst (jobs s) = map fst (r_jobs (ref_run p)).
+Proof.
+  intros Hr Hf.
+  pose proof (run_result _ _ _ (inv_init p) Hr) as Hres. rewrite result_init in Hres.
+  unfold final in Hf. destruct (at_ s) eqn:Ea; try discriminate.
+  assert (Hp : prog s = []).
+  { eapply exit_prog_nil; [|exact Hr|exact Ea]. cbn. discriminate. }
+  unfold result in Hres. rewrite Hp in Hres. cbn [fold_left] in Hres.
+  unfold complete in Hres. rewrite Ea in Hres. rewrite <- Hres.
+  unfold abs; cbn [r_trace r_status r_lastbg r_jobs]. repeat split.
+  unfold abs_jobs. rewrite map_map. cbn [fst]. reflexivity.
+Qed.
+
+(* two complete runs of the same script agree, whatever the schedules *)
+Lemma any_two_schedules_agree_lemma p ls1 ls2 s1 s2 :
+  run (init p) ls1 = Some s1 -> final s1 = true ->
+  run (init p) ls2 = Some s2 -> final s2 = true ->
+  trace s1 = trace s2 /\ status s1 = status s2 /\ lastbg s1 = lastbg s2.
+Proof.
+  intros H1 F1 H2 F2.
+  destruct (schedule_independent_lemma _ _ _ H1 F1) as [A1 [B1 [C1 _]]].
+  destruct (schedule_independent_lemma _ _ _ H2 F2) as [A2 [B2 [C2 _]]].
+  repeat split; congruence.
+Qed.
+
+(* a script that ends with `wait` leaves no child alive or unreaped *)
+Lemma ref_wait_all_jobs p : r_jobs (ref_run (p ++ [CWait None])) = [].
+Proof. unfold ref_run. rewrite fold_left_app. reflexivity. Qed.
+
+Lemma ref_probe_jobs r : r_jobs (ref_cmd r CProbe) = r_jobs r.
+Proof. reflexivity. Qed.
+
+Lemma all_reaped_after_wait_lemma p ls s c :
+  run (init (p ++ [CWait None])) ls = Some s -> final s = true ->
+  In c (kids (kn s)) -> cs c = Reaped /\ reaps c = 1.
+Proof.
+  intros Hr Hf Hin.
+  destruct (schedule_independent_lemma _ _ _ Hr Hf) as [_ [_ [_ Hj]]].
+  rewrite ref_wait_all_jobs in Hj. cbn [map] in Hj.
+  destruct (In_nth_error _ _ Hin) as [i Hi].
+  destruct (cs c) eqn:Ec.
+  - pose proof (no_zombie_lemma _ _ _ i c Hr Hf Hi) as H. rewrite Hj in H.
+    exfalso. apply H. congruence.
+  - pose proof (no_zombie_lemma _ _ _ i c Hr Hf Hi) as H. rewrite Hj in H.
+    exfalso. apply H. congruence.
+  - split; [reflexivity|]. pose proof (reaped_once_lemma _ _ _ c Hr Hin) as H.
+    rewrite Ec in H. assumption.
 Qed.
